@@ -2,6 +2,7 @@
 //! (C06), allocation-failure behaviour (C07), exclusive-borrow collections (C15), splitting (C16),
 //! strings (C09).
 
+pub mod boxes;
 pub mod families;
 pub mod hist;
 pub mod split;
